@@ -80,7 +80,10 @@ def run_case(base, case, acc):
     from cobra.flux_analysis import moma, pfba, room
 
     rng = gen.rng_for("C09", base, case)
-    rec = gen.network(rng, genes=0, finite=True, size=rng.randint(1, 2), allow_forced=rng.random() < 0.5)
+    wide = rng.random() < 0.25  # capacities (and therefore fluxes) beyond the configured default bounds of +-1000
+    rec = gen.network(rng, genes=0, finite=True, size=rng.randint(1, 2), allow_forced=rng.random() < 0.5, big_choices=[4000, 2500, 4000, 2500, 8000] if wide else None)
+    if wide:
+        acc.count("models_with_capacities_beyond_the_default_bounds")
     lab, res = gen.classify(rec)
     if lab["status"] != "optimal":
         acc.count("skipped_no_optimum")
@@ -200,6 +203,10 @@ def run_case(base, case, acc):
         ko = rng.sample(rids, rng.choice([0, 1, 1, 2]))
         refname = rng.choice(sorted(refs))
         ref = refs[refname]
+        if rng.random() < 0.4:
+            ref = gen.reordered_solution(ref, rng)
+            refname += "/reordered"
+            acc.count("references_in_another_index_order")
         method = rng.choice(["moma", "moma", "room", "room-linear"])
         default_ref = rng.random() < 0.15 and not ko
         ident = dict(ident0, method=method, knocked=ko, reference="default" if default_ref else refname)
